@@ -8,7 +8,7 @@
                                           stable sort (what sort.Stable computes)
      S1 srt      "returns a sorted permutation and leaves a sorted input unchanged" (FmtSort.S1)
      wf_keys     every mapping has pairwise distinct keys *)
-From KV Require Import Yaml.Fmt Yaml.FmtSort Yaml.FmtTablesRef Yaml.Resolve11 Yaml.FmtProofs.
+From KV Require Import Yaml.Fmt Yaml.FmtSort Yaml.FmtTablesRef Yaml.Resolve11 Yaml.Resolve11Proofs Yaml.FmtProofs.
 From Coq Require Import Permutation.
 
 (* ---- generated tables ---- *)
@@ -164,14 +164,26 @@ Theorem C20_anchor_order_refuted : forall nonstr hastype, exists n n',
 Proof. exact fmt_anchor_order_refuted. Qed.
 Print Assumptions C20_anchor_order_refuted.
 
-(* the alias-free fragment: a document without alias nodes is formatted into a document without alias
-   nodes, in which therefore no alias precedes its anchor (the only way the formatter can make the
-   reparse `parse (emit (fmt x))` fail through anchors is excluded); any (S1) sort *)
-Theorem C20_alias_free_anchors_ok : forall nonstr hastype srt kind api, S1 srt -> forall n s p n',
-  alias_free n = true -> fmt_node nonstr hastype srt kind api s p n = Ok n' ->
-  alias_free n' = true /\ anchors_ok n' = true.
-Proof. exact fmt_alias_free. Qed.
-Print Assumptions C20_alias_free_anchors_ok.
+(* ---- reparse (anchors) ----
+   Full statement: a document a YAML parser accepts (every alias after its anchor: anchors_ok) is formatted
+   into one it accepts.  FALSE for documents with aliases (C20_anchor_order_refuted above, finding
+   reparse/alias-before-anchor: fmtNode moves nodes without regard to anchors).  The guard below is exactly the
+   complement of that finding's input class (the oracle assigns the class only to inputs that contain an
+   alias): on the alias-free fragment — anchors allowed — formatting cannot break the reparse through
+   anchors, for fmtNode and for FormatFilter.Filter, with any (S1) sort. *)
+Theorem C20_reparse_partial : forall nonstr hastype srt, S1 srt ->
+  (forall kind api n s p n',
+     alias_free n = true -> fmt_node nonstr hastype srt kind api s p n = Ok n' ->
+     alias_free n' = true /\ anchors_ok n' = true) /\
+  (forall s n n',
+     alias_free n = true -> filter_doc nonstr hastype srt s n = Ok n' ->
+     alias_free n' = true /\ anchors_ok n' = true).
+Proof.
+  exact (fun nonstr hastype srt H =>
+    conj (fun kind api => fmt_alias_free nonstr hastype srt kind api H)
+         (filter_doc_reparse nonstr hastype srt H)).
+Qed.
+Print Assumptions C20_reparse_partial.
 
 (* the head / line / foot comments of all nodes: same multiset before and after *)
 Theorem C20_comments_preserved : forall nonstr hastype srt kind api, S1 srt -> forall n s p n',
@@ -263,6 +275,30 @@ Proof.
    (conj (sqr_typed o1 o2 h v r HR) (sqr_mistyped o1 o2 h v r HR)))).
 Qed.
 Print Assumptions C20_schema_quote_resolved.
+
+(* ---- the shared instance of the oracle parameter nonstr (yaml.IsValueNonString) ----
+   Every model that takes `nonstr : string -> bool` as a parameter can use [nonstr_m o]: *)
+
+(* what the model computes: non-string <=> the text resolves (Resolve11) to bool / int / float / null *)
+Theorem C20_nonstr_of_resolve11 : forall s,
+  nonstr_of_resolve11 s = true <->
+  exists r, resolve11 s = Some r /\ (r = RBool \/ r = RInt \/ r = RFloat \/ r = RNull).
+Proof. exact nonstr_of_resolve11_spec. Qed.
+Print Assumptions C20_nonstr_of_resolve11.
+
+(* the instance in full: IsValueNonString's two early exits, the computed part, the oracle elsewhere;
+   where the model has an answer the residual oracle is not consulted; and two oracles that agree
+   outside the model's fragment give the same instance *)
+Theorem C20_nonstr_instance : forall o,
+  (forall s, nonstr_m o s = true <->
+     s <> "" /\ has_newline s = false /\
+     (nonstr_of_resolve11 s = true \/ (resolve11 s = None /\ o s = true))) /\
+  (forall s, resolved s = true -> nonstr_m o s = nonstr_of_resolve11 s) /\
+  (forall o', (forall s, resolve11 s = None -> o s = o' s) -> forall s, nonstr_m o s = nonstr_m o' s).
+Proof.
+  exact (fun o => conj (nonstr_m_spec o) (conj (nonstr_m_resolved_any o) (nonstr_m_ext o))).
+Qed.
+Print Assumptions C20_nonstr_instance.
 
 (* ---- documents the filter leaves alone ---- *)
 Theorem C20_optout : forall nonstr hastype srt s n v,
